@@ -57,6 +57,9 @@ func (q *Q) propActive(p string) bool {
 	if p == "" {
 		return true
 	}
+	if p == "assumed" {
+		return false // clause is assumed at call sites only, never checked
+	}
 	if q.curProp == "" {
 		return hasProp(q.props, p)
 	}
@@ -178,6 +181,10 @@ type Gen struct {
 	id    int
 	conds []Term
 	subs  []*Heap
+	// a havoc that spares some keys (ghost state, fields only package eval can write, ...): those keys
+	// resolve through the heap before the havoc, whenever they are first used
+	parent *Heap
+	keep   func(key string) bool
 }
 
 type Heap struct {
@@ -208,6 +215,11 @@ func (q *Q) heapGet(h *Heap, key string) Term {
 		panic("heap key without sort: " + key)
 	}
 	var t Term
+	if h.gen.subs == nil && h.gen.parent != nil && h.gen.keep != nil && h.gen.keep(key) {
+		t = q.heapGet(h.gen.parent, key)
+		h.m[key] = t
+		return t
+	}
 	if h.gen.subs == nil {
 		name := fmt.Sprintf("h_%s_g%d", sanitize(key), h.gen.id)
 		if !q.declared[name] {
@@ -274,11 +286,8 @@ func (q *Q) havocAll(h *Heap, guard Term) *Heap {
 	nh := q.newHeap()
 	q.assume(implies(guard, le(q.heapGet(h, allocKey), q.heapGet(nh, allocKey))))
 	// ghost (specification-only) state changes only through contract clauses that name it
-	for k := range q.so.keySort {
-		if strings.HasPrefix(k, "GH:") {
-			nh.m[k] = q.heapGet(h, k)
-		}
-	}
+	nh.gen.parent = h.clone()
+	nh.gen.keep = func(k string) bool { return strings.HasPrefix(k, "GH:") }
 	if q.assumeGlobals != nil {
 		q.assumeGlobals(nh)
 	}
